@@ -26,9 +26,22 @@ def safeKey (k : Bytes) : Bool := !k.isEmpty && trimmed k && inert k && k.head? 
 def safeRaw (v : Bytes) : Bool :=
   !v.isEmpty && trimmed v && inert v && v.head? != some DQ && v.head? != some 96 && v.getLast? != some KV.RB
 def noNL (p : Bytes) : Bool := !p.contains 10
+/-- under the quote-aware Tags pattern a raw piece must not contain a `}` whose run is followed by a blank or a `"`
+(the token would end there); the greedy pattern does not care -/
+def braceRunOK : Bytes → Bool
+  | [] => true
+  | c :: r =>
+    if c == 125 then
+      (match r.dropWhile (· == 125) with
+       | x :: _ => !(isSpace x || x == 34)
+       | [] => true) && braceRunOK r
+    else braceRunOK r
+
+def rawOK (p : Bytes) : Bool := noNL p && (!Logrange.Generated.C12.tagsQuoteAware || braceRunOK p)
+
 /-- every pair of the set prints (inside `{…}`) as a piece that `tag.Parse` reads back and the Tags token can hold -/
 def safeTags (m : TagMap) : Bool :=
-  m.all (fun p => safeKey p.1 && noNL p.1 && (KV.needsQuote p.2 || (safeRaw p.2 && noNL p.2)))
+  m.all (fun p => safeKey p.1 && rawOK p.1 && (KV.needsQuote p.2 || (safeRaw p.2 && rawOK p.2)))
 
 /-- the tag sets that are **printed** by `Lql.String()` (`Pipes.Void` is parsed but never printed) -/
 def printedTagSets (l : Lql) : List TagMap :=
@@ -110,7 +123,7 @@ def classEmptyRange (l : Lql) : Bool :=
 /-- the classes a failure of this statement may be attributed to. F12c / F12d / F12f / F12g are repaired: their predicates
 count only when the regenerated printer facts say the old shape is back (then the check reports "the defect is back") -/
 def classes (rd : Int → Bytes) (l : Lql) : List String :=
-  (if classBraceAfterTags rd l then ["F12a"] else []) ++ (if classUnsafeTags l then ["F12b"] else [])
+  (if classBraceAfterTags rd l && !Logrange.Generated.C12.tagsQuoteAware then ["F12a"] else []) ++ (if classUnsafeTags l then ["F12b"] else [])
   ++ (if classMaxDbSize l && !Logrange.Generated.C12.truncatePrintsMaxDbSize then ["F12c"] else [])
   ++ (if classDateFraction l && !Logrange.Generated.C12.dateUsesFormat then ["F12d"] else [])
   ++ (if classBareKeyword l then ["F12e"] else [])
